@@ -16,6 +16,9 @@ use std::{
     sync::{Arc, RwLock},
 };
 
+use crate::engine::computation_graph::{
+    CompressedBackwardEdgeSet, TieredStorage,
+};
 use crate::query::QueryID;
 
 /// Receiver of hook events.
@@ -48,5 +51,57 @@ pub fn emit(label: &'static str, id: Option<&QueryID>, n: u64) {
 pub async fn pause(label: &'static str, id: Option<&QueryID>) {
     if let Some(s) = sink() {
         s.pause(label, id).await;
+    }
+}
+
+/// The engine's backward-edge set (`CompressedBackwardEdgeSet`, the
+/// small-vector / large-`DashSet` tiered set of `database.rs`) exposed to the
+/// harness so that it can be driven directly. Every method forwards to the real
+/// `ConcurrentSet` implementation.
+pub struct BackwardEdgeSet<S: std::hash::BuildHasher + Clone>(
+    CompressedBackwardEdgeSet<S>,
+);
+
+impl<S: std::hash::BuildHasher + Clone> Clone for BackwardEdgeSet<S> {
+    fn clone(&self) -> Self { Self(self.0.clone()) }
+}
+
+impl<S: std::hash::BuildHasher + Clone> std::fmt::Debug for BackwardEdgeSet<S> {
+    fn fmt(&self, f: &mut std::fmt::Formatter<'_>) -> std::fmt::Result {
+        f.write_str("BackwardEdgeSet")
+    }
+}
+
+impl<S: std::hash::BuildHasher + Default + Clone + Send + Sync + 'static>
+    BackwardEdgeSet<S>
+{
+    #[must_use]
+    pub fn new() -> Self { Self(CompressedBackwardEdgeSet::default()) }
+
+    pub fn insert_element(&self, element: QueryID) -> bool {
+        qbice_storage::key_of_set_map::ConcurrentSet::insert_element(
+            &self.0, element,
+        )
+    }
+
+    pub fn remove_element(&self, element: &QueryID) -> bool {
+        qbice_storage::key_of_set_map::ConcurrentSet::remove_element(
+            &self.0, element,
+        )
+    }
+
+    #[must_use]
+    pub fn len(&self) -> usize {
+        qbice_storage::key_of_set_map::ConcurrentSet::len(&self.0)
+    }
+
+    pub fn iter(&self) -> impl Iterator<Item = QueryID> + '_ {
+        qbice_storage::key_of_set_map::ConcurrentSet::iter(&self.0)
+    }
+
+    /// Whether the set has been upgraded to the large tier.
+    #[must_use]
+    pub fn is_large(&self) -> bool {
+        matches!(&*(self.0).0.read(), TieredStorage::Large(_))
     }
 }
